@@ -11,9 +11,12 @@ import (
 	"github.com/emirpasic/gods/v2/containers"
 	"github.com/emirpasic/gods/v2/lists/arraylist"
 	"github.com/emirpasic/gods/v2/lists/doublylinkedlist"
+	"github.com/emirpasic/gods/v2/lists/singlylinkedlist"
 	"github.com/emirpasic/gods/v2/queues/arrayqueue"
 	"github.com/emirpasic/gods/v2/queues/circularbuffer"
+	"github.com/emirpasic/gods/v2/queues/linkedlistqueue"
 	"github.com/emirpasic/gods/v2/stacks/arraystack"
+	"github.com/emirpasic/gods/v2/stacks/linkedliststack"
 )
 
 // observeAll: every observer including iteration order, used to decide
@@ -97,10 +100,100 @@ func runC16Floats(c *core.Ctx) {
 	c.Nontrivial()
 }
 
+// runC16Shaped: GetSortedValues(Func) on contents with structure - runs,
+// nearly sorted, nearly reversed, constant, sawtooth, with one element out of
+// place at the front, the back or in the middle - at sizes around the points
+// where sorting code switches strategy. "Already a descending run, just
+// reverse it" and similar shortcuts are decided by exactly such shapes.
+func runC16Shaped(c *core.Ctx) {
+	r := c.R
+	n := []int{12, 13, 31, 32, 33, 40, 64, 65, 100, 257, 1000}[r.Intn(11)]
+	shape := r.Intn(5)
+	vals := make([]int, n)
+	for i := range vals {
+		switch shape {
+		case 0:
+			vals[i] = i * 3
+		case 1:
+			vals[i] = (n - i) * 3
+		case 2:
+			vals[i] = 7
+		case 3:
+			vals[i] = (i % 9) * 5
+		default:
+			vals[i] = r.Intn(4 * n)
+		}
+	}
+	pert := r.Intn(6)
+	switch pert {
+	case 1: // the first element belongs elsewhere
+		vals[0] = vals[n/2] + 1
+	case 2:
+		vals[0] = vals[1] - 1
+	case 3: // the last element belongs elsewhere
+		vals[n-1] = vals[n/3] - 1
+	case 4:
+		i := r.Range(1, n-2)
+		vals[i], vals[i+1] = vals[i+1], vals[i]
+	case 5:
+		vals[r.Intn(n)] = r.Intn(4*n) - n
+	}
+	c.Note("shape %d, perturbation %d, %d values", shape, pert, n)
+	c.Count("obs:shaped-contents-cases", 1)
+	conts := map[string]containers.Container[int]{}
+	al := arraylist.New(vals...)
+	conts["ArrayList"] = al
+	conts["DoublyLinkedList"] = doublylinkedlist.New(vals...)
+	conts["SinglyLinkedList"] = singlylinkedlist.New(vals...)
+	st, ls := arraystack.New[int](), linkedliststack.New[int]()
+	q, lq := arrayqueue.New[int](), linkedlistqueue.New[int]()
+	rb := circularbuffer.New[int](n + r.Intn(3))
+	for _, v := range vals {
+		st.Push(v)
+		ls.Push(v)
+		q.Enqueue(v)
+		lq.Enqueue(v)
+		rb.Enqueue(v)
+	}
+	conts["ArrayStack"], conts["LinkedListStack"], conts["ArrayQueue"], conts["LinkedListQueue"], conts["CircularBuffer"] = st, ls, q, lq, rb
+	for _, name := range core.SortedKeys(conts) {
+		cont := conts[name]
+		before := slices.Clone(cont.Values())
+		for ci := -1; ci < 2; ci++ {
+			var got []int
+			cf := intCmps[0].F
+			if ci == 1 {
+				cf = intCmps[1].F
+			}
+			if ci < 0 {
+				c.Begin(name, "GetSortedValues", n)
+				got = containers.GetSortedValues(cont)
+			} else {
+				c.Begin(name, "GetSortedValuesFunc", intCmps[ci].Name, n)
+				got = containers.GetSortedValuesFunc(cont, cf)
+			}
+			want := slices.Clone(before)
+			slices.SortFunc(want, cf)
+			if !slices.Equal(got, want) {
+				c.Fail("sorted-values", "not-sorted", "sorted values of a %s holding %s = %s, want %s", name, short(before), short(got), short(want))
+			}
+			if after := cont.Values(); !slices.Equal(after, before) {
+				c.Fail("sorted-values", "container-altered", "sorting the values of a %s altered it: %s -> %s", name, short(before), short(after))
+			}
+			c.Count("obs:sorted-shaped", 1)
+		}
+	}
+	c.Nontrivial()
+}
+
 func runC16(c *core.Ctx) {
 	r := c.R
 	if c.Index%211 == 100 {
 		runC16Floats(c)
+		return
+	}
+	if c.Index%23 == 7 {
+		runC16Shaped(c)
 		return
 	}
 	kind := dynKinds[c.Index%len(dynKinds)]
@@ -210,6 +303,7 @@ func init() {
 			f.atLeast("obs:snapshot-stable", 50000)
 			f.atLeast("obs:argument-slice", 5000)
 			f.atLeast("obs:sorted-values>=2", 10000)
+			f.atLeast("obs:shaped-contents-cases", 1000)
 			return f.missing
 		},
 		Files: append(append([]string{}, allContainerFiles...), "containers/containers.go"),
